@@ -208,7 +208,18 @@ func (c *Ctx) SSA() *ssa.Program {
 	prog.Build()
 	c.prog = prog
 	c.ssaPkgs = pkgs
+	progCtx[prog] = c
 	return prog
+}
+
+// progCtx: the context a program belongs to (for helpers that only see SSA values).
+var progCtx = map[*ssa.Program]*Ctx{}
+
+func ctxOfValue(v ssa.Value) *Ctx {
+	if v == nil || v.Parent() == nil {
+		return nil
+	}
+	return progCtx[v.Parent().Prog]
 }
 
 // SSAPkg returns the ssa package for a repo package.
